@@ -2,6 +2,7 @@
 Proved tier: determinism as an effect system over the AST of the real functions (vf.effects), one obligation per call
 site / global access, for all inputs.  Bounded tier: validity of every generator over its option lattice (run-time
 contracts) and a dynamic echo of determinism (same seed, perturbed global generators in between => bit-identical)."""
+import time
 import inspect, itertools, random, math
 import numpy as np
 import torch
@@ -293,6 +294,56 @@ def echo(fn, kw, seed):
     return _same(r1, r2)
 
 
+class _GlobalSentinel:
+    """counts calls into the process-global generators (numpy legacy, stdlib random, torch) while active; behaviour unchanged"""
+    def __enter__(self):
+        self.hits = 0; self.saved = []
+        import numpy.random as npr
+
+        def wrap(mod, name, f):
+            def g(*a, **k):
+                self.hits += 1
+                return f(*a, **k)
+            self.saved.append((mod, name, f)); setattr(mod, name, g)
+        for name in dir(npr):
+            f = getattr(npr, name)
+            if getattr(f, '__self__', None) is npr.mtrand._rand and name not in ('get_state', 'set_state'):
+                wrap(npr, name, f)
+        for name in dir(random):
+            f = getattr(random, name)
+            if getattr(f, '__self__', None) is random._inst and name not in ('getstate', 'setstate'):
+                wrap(random, name, f)
+        for name in ('rand', 'randn', 'randint', 'randperm', 'normal', 'manual_seed', 'rand_like', 'randn_like', 'bernoulli', 'multinomial'):
+            wrap(torch, name, getattr(torch, name))
+        return self
+
+    def __exit__(self, *a):
+        for mod, name, f in reversed(self.saved):
+            setattr(mod, name, f)
+        return False
+
+
+def directed_confirm(cands, budget_s=20.0):
+    """search (recipe, seed) for a run that reaches a process-global generator, then replay it with perturbed globals"""
+    t0 = time.time()
+    for seed in range(512):
+        for f2, kw in cands:
+            if time.time() - t0 > budget_s:
+                return None
+            try:
+                with _GlobalSentinel() as g:
+                    r1 = f2(seed=seed, **kw)
+                if not g.hits:
+                    continue
+                for t in range(1, 8):
+                    _perturb_globals(t)
+                    if not _same(r1, f2(seed=seed, **kw)):
+                        return dict(kwargs=jsonable({k_: (v if not callable(v) else 'fn') for k_, v in kw.items()}), seed=seed, how='global generator reached on this seed; output changes with the global state')
+            except Exception:
+                continue
+    return None
+
+
 RECIPE_FOR = {'rand_bipartite_state': ('rand_bipartite_state', dict(dimA=2, dimB=3, k=None, return_dm=False)),
               'rand_Clifford_group': ('rand_Clifford_group', dict(n=3))}
 
@@ -332,9 +383,19 @@ def job_effects(tier, rng):
                             break
                     if conf:
                         break
+                if conf is None and cands:
+                    dc = directed_confirm(cands)
+                    if dc is not None:
+                        conf = dict(function=short, **dc)
                 if conf:
                     out.append(ob(oid, 'refuted', functions=[qual], tier='P', backend='ast-effects+dynamic-replay', site=s.text, witness=conf,
                                   detail=s.detail + ' [confirmed: same seed, different output]', native=dict(confirmed=True)))
+                elif s.kind == 'global-generator':
+                    # an unguarded draw from a process-global generator inside a seeded function: the effect contract Det(seed) is refuted statically;
+                    # no failing (arguments, seed) was found by the directed search -> reported without input
+                    out.append(ob(oid, 'refuted', functions=[qual], tier='P', backend='ast-effects', site=s.text, witness=None,
+                                  verifier_output=f'{qual} line {s.lineno}: {s.text} - {s.detail}; not inside `if <seed> is None`; the obligation is discharged on the unchanged tree',
+                                  detail=s.detail + ' [no failing input found by the directed replay]'))
                 else:
                     out.append(ob(oid, 'undecided', functions=[qual], tier='P', backend='ast-effects', site=s.text,
                                   detail=s.detail + ' [static failure not confirmed by the dynamic replay: undecided]'))
